@@ -88,6 +88,8 @@ class State:
         self.notes = []
         self.joins = []
         self.at_join = None
+        self.lits = {}
+        self.callmemo = {}
         self.done = None
 
     def fork(self):
@@ -110,6 +112,8 @@ class State:
         s.labels = list(self.labels)
         s.joins = list(self.joins)
         s.at_join = None
+        s.lits = dict(self.lits)
+        s.callmemo = dict(self.callmemo)
         s.notes = list(self.notes)
         s.done = None
         return s
@@ -176,6 +180,19 @@ def stub(name):
 _objctr = itertools.count(1)
 OBJLEAF = {}
 
+# z3 AST ids are recycled once a term is garbage collected. Every id used as a
+# dictionary key is therefore pinned here (the term stays alive for the whole
+# run of the job), so an id can never come to denote a different term.
+_PINNED = {}
+
+
+def tid(t):
+    i = t.get_id()
+    if i not in _PINNED:
+        _PINNED[i] = t
+    return i
+
+
 
 def ubound(t, depth=0):
     """cheap syntactic upper bound (unsigned) of BitVec term t."""
@@ -240,6 +257,7 @@ class Exec:
         self.trace = self.opts.get('trace', False)
         self.init_mode = False
         self.ifconv = self.opts.get('ifconv', True)
+        self.no_memo = set(self.opts.get('no_memo', []))
         self.sat_cache = {}
         self.bv_cache = {}
         self.probe_bv = z3.Probe('is-qfbv')
@@ -324,8 +342,8 @@ class Exec:
         """list of (guard, offset) for a pointer with symbolic indices."""
         cands = [(True, ptr.off)]
         for (idx, stride, count) in ptr.sym:
-            if st is not None and idx.get_id() in st.conc:
-                k = st.conc[idx.get_id()]
+            if st is not None and tid(idx) in st.conc:
+                k = st.conc[tid(idx)]
                 cands = [(g, off + k * stride) for (g, off) in cands]
                 continue
             nc = []
@@ -364,7 +382,7 @@ class Exec:
         except Unmergeable:
             # elements of different shape (e.g. strings of different length):
             # fork over the feasible index values instead
-            todo = [idx for (idx, stride, count) in ptr.sym if idx.get_id() not in st.conc]
+            todo = [idx for (idx, stride, count) in ptr.sym if tid(idx) not in st.conc]
             if not todo:
                 raise
             for idx in todo:
@@ -475,7 +493,7 @@ class Exec:
     # ------------------------------------------------------------------ solver
     def is_bv(self, c):
         """is constraint c pure QF_BV (no floating point, arrays, UFs)?"""
-        k = c.get_id()
+        k = tid(c)
         r = self.bv_cache.get(k)
         if r is None:
             g = z3.Goal()
@@ -493,7 +511,7 @@ class Exec:
         self.res.solver_calls += 1
         allbv = all(self.is_bv(c) for c in pc) and (extra is None or self.is_bv(extra))
         if allbv:
-            ids = [c.get_id() for c in pc]
+            ids = [tid(c) for c in pc]
             stack = self.inc_stack
             n = 0
             while n < len(stack) and n < len(ids) and stack[n] == ids[n]:
@@ -504,7 +522,7 @@ class Exec:
             for c in pc[n:]:
                 self.inc.push()
                 self.inc.add(c)
-                stack.append(c.get_id())
+                stack.append(tid(c))
             if extra is not None:
                 self.inc.push()
                 self.inc.add(extra)
@@ -626,6 +644,20 @@ class Exec:
         cond = self.simp(cond)
         if isinstance(cond, bool):
             return [(st, cond)]
+        # the same condition (syntactically) was decided earlier on this path:
+        # follow that decision (relational harnesses run the same code twice)
+        lk = st.lits.get(tid(cond))
+        if lk is None and z3.is_not(cond):
+            inner = st.lits.get(tid(cond.arg(0)))
+            if inner is not None:
+                lk = not inner
+        if lk is not None:
+            if self.trace:
+                print('BRANCH memo', tid(cond), lk, file=sys.stderr)
+            return [(st, lk)]
+        if self.trace:
+            fr = st.frames[-1]
+            print('BRANCH new', fr.fid, fr.bi, tid(cond), cond.sexpr()[:150].replace('\n', ' '), file=sys.stderr)
         ncond = z3.Not(cond)
         known = None
         if st.model is not None:
@@ -640,35 +672,41 @@ class Exec:
         if known is None:
             rt, mt = self.solve_raw(st.pc, cond)
             if rt == 'unsat':
+                st.lits[tid(cond)] = False
                 return [(st, False)]
             rf, mf = self.solve_raw(st.pc, ncond)
             if rf == 'unsat':
                 if mt is not None:
                     st.model = mt
+                st.lits[tid(cond)] = True
                 return [(st, True)]
         elif known:
             mt = st.model
             rf, mf = self.solve_raw(st.pc, ncond)
             if rf == 'unsat':
+                st.lits[tid(cond)] = True
                 return [(st, True)]
         else:
             mf = st.model
             rt, mt = self.solve_raw(st.pc, cond)
             if rt == 'unsat':
+                st.lits[tid(cond)] = False
                 return [(st, False)]
         self.res.forks += 1
         st2 = st.fork()
         st.pc.append(cond)
         st.model = mt
+        st.lits[tid(cond)] = True
         st2.pc.append(ncond)
         st2.model = mf
+        st2.lits[tid(cond)] = False
         return [(st, True), (st2, False)]
 
     def concretize(self, st, t, what='value', limit=None):
         """python int for t; forks over all feasible values when symbolic."""
         if isinstance(t, int):
             return t
-        key = t.get_id()
+        key = tid(t)
         if key in st.conc:
             return st.conc[key]
         ts = z3.simplify(t)
@@ -1136,7 +1174,45 @@ class Exec:
         st.frames.append(nf)
         return None
 
+    def memo_key(self, v):
+        """hashable key for a value made of scalars only (None if it holds references)."""
+        if isinstance(v, bool):
+            return ('b', v)
+        if isinstance(v, int):
+            return ('i', v)
+        if isinstance(v, z3.ExprRef):
+            return ('t', tid(v))
+        if isinstance(v, FV):
+            if fpops.is_conc(v):
+                return ('f', v.w, fpops.bits_of_py(v.w, v.v))
+            return ('ft', v.w, tid(v.v))
+        if isinstance(v, (Agg, Tup)):
+            ks = tuple(self.memo_key(x) for x in v)
+            return None if any(k is None for k in ks) else ('a',) + ks
+        if isinstance(v, Str):
+            ks = tuple(self.memo_key(x) for x in v.b)
+            return ('s',) + ks
+        return None
+
     def merged_call(self, st, fr, ins, nf):
+        key = None
+        if nf.fid.split('#')[0] not in self.no_memo:
+            ks = tuple(self.memo_key(nf.regs[k]) for k in sorted(nf.regs))
+            if all(k is not None for k in ks):
+                key = (nf.fid, ks)
+                hit = st.callmemo.get(key)
+                if hit is not None:
+                    # same pure function, syntactically identical arguments, same path:
+                    # same result (keeps relational comparisons syntactic)
+                    fr.regs[ins['r']] = hit[0]
+                    fr.ii += 1
+                    return None
+        r = self.merged_call2(st, fr, ins, nf)
+        if r is None and key is not None and not getattr(self, '_last_call_wrote', True):
+            st.callmemo[key] = (st.frames[-1].regs[ins['r']],)
+        return r
+
+    def merged_call2(self, st, fr, ins, nf):
         """explore the callee to completion from st and merge the resulting
         states into one (if-then-else over the callee's path conditions). Falls
         back to ordinary forking when the results cannot be merged."""
@@ -1145,6 +1221,9 @@ class Exec:
         saved_joins = st.joins
         sub.frames = [nf]
         sub.joins = []
+        written_before = set(st.written)
+        heap_ids_before = set(st.heap.keys())
+        self._last_call_wrote = True
         base_len = len(st.pc)
         paths_before = self.res.paths
         ended_before = dict(self.res.ended)
@@ -1170,12 +1249,20 @@ class Exec:
             f2.regs[ins['r']] = value
             f2.ii += 1
             return f
+        def wrote(fs):
+            for f in fs:
+                for o in f.written - written_before:
+                    if o in heap_ids_before:
+                        return True
+            return False
         if len(fin) == 1:
             f = fin[0]
+            self._last_call_wrote = wrote(fin)
             adopt(f, as_value(f.done))
             # continue in f: copy its contents into st (st is the object the caller loop holds)
             st.__dict__.update(f.__dict__)
             return None
+        self._last_call_wrote = wrote(fin)
         try:
             merged = self.merge_states(st, fin, base_len, [as_value(f.done) for f in fin], self.T(ins['t']) if 't' in ins else None)
         except Unmergeable as e:
@@ -1258,6 +1345,14 @@ class Exec:
             conc = dict(f.conc) if conc is None else {k: v for k, v in conc.items() if f.conc.get(k) == v}
         m.nondet = nd
         m.written = wr
+        common = dict(fin[0].lits)
+        for f in fin[1:]:
+            common = {k: v for k, v in common.items() if f.lits.get(k) == v}
+        m.lits = common
+        cm = dict(fin[0].callmemo)
+        for f in fin[1:]:
+            cm = {k: v for k, v in cm.items() if f.callmemo.get(k) is v}
+        m.callmemo = cm
         m.conc = conc or {}
         m.steps = max(f.steps for f in fin)
         m.model = first.model
@@ -1820,7 +1915,7 @@ def index_check(ex, st, idx, it, count, what='index out of range'):
         if not it.unsigned:
             v = wrap_int(v, it.bits, False)
         return index_check(ex, st, v, it, count, what)
-    key = idx.get_id()
+    key = tid(idx)
     if key in st.conc:
         return index_check(ex, st, st.conc[key], it, count, what)
     if isinstance(count, int):
